@@ -131,6 +131,13 @@ func (fg *FuncGen) tr(e SExpr, env *SpecEnv, hint types.Type) Val {
 				f, _ := new(big.Float).SetInt(bi).Float64()
 				return Val{T: floatLit(f, 64), Typ: hint}
 			}
+			if hint != nil && isGhostInt(hint) {
+				s := bi.String()
+				if bi.Sign() < 0 {
+					s = "(- " + new(big.Int).Neg(bi).String() + ")"
+				}
+				return Val{T: s, Typ: ghostInt}
+			}
 			t := types.Type(types.Typ[types.Int])
 			if hint != nil && isInt(hint) {
 				t = hint
@@ -375,6 +382,22 @@ func (fg *FuncGen) trBin(x *SBin, env *SpecEnv, hint types.Type) Val {
 	if a.Typ == types.Typ[types.UntypedNil] && a.Typ != b.Typ {
 		a = Val{T: enc.zero(b.Typ), Typ: b.Typ}
 	}
+	if isGhostInt(a.Typ) || isGhostInt(b.Typ) {
+		if !(isGhostInt(a.Typ) && isGhostInt(b.Typ)) {
+			fg.specFail(env, "mixing a mathematical integer with a machine integer in %s", x)
+		}
+		switch x.Op {
+		case "==":
+			return Val{T: fmt.Sprintf("(= %s %s)", a.T, b.T), Typ: B}
+		case "!=":
+			return Val{T: fmt.Sprintf("(not (= %s %s))", a.T, b.T), Typ: B}
+		case "<", "<=", ">", ">=":
+			return Val{T: fmt.Sprintf("(%s %s %s)", x.Op, a.T, b.T), Typ: B}
+		case "+", "-", "*":
+			return Val{T: fmt.Sprintf("(%s %s %s)", x.Op, a.T, b.T), Typ: ghostInt}
+		}
+		fg.specFail(env, "operator %s on mathematical integers", x.Op)
+	}
 	t := a.Typ
 	if enc.sortOf(a.Typ) != enc.sortOf(b.Typ) {
 		// iface vs concrete: box the concrete side
@@ -458,7 +481,9 @@ func (fg *FuncGen) trQuant(x *SQuant, env *SpecEnv) Val {
 		return Val{T: or(parts...), Typ: types.Typ[types.Bool]}
 	}
 	var t types.Type = types.Typ[types.Int]
-	if x.Type != "" {
+	if x.Type == "mathint" {
+		t = ghostInt
+	} else if x.Type != "" {
 		t = fg.g.resolveType(x.Type, env.pkg)
 		if t == nil {
 			fg.specFail(env, "unknown type %s", x.Type)
@@ -702,8 +727,9 @@ func (fg *FuncGen) trCall(x *SCall, env *SpecEnv, hint types.Type) Val {
 	case "ncalls":
 		name := fg.calleeKey(x.Args[0], env)
 		return Val{T: fg.ghostGet(env.st, "$calls:"+name, "Int", "0"), Typ: fg.mathInt()}
-	case "callarg":
-		// callarg(F, k, j): j-th reference-typed argument of the k-th direct call to F
+	case "callarg", "callres":
+		// callarg(F, k, j): j-th argument (receiver first) of the k-th direct call to F;
+		// callres(F, k, i): its i-th result
 		name := fg.calleeKey(x.Args[0], env)
 		k := arg(1, fg.mathInt())
 		j := 0
@@ -712,12 +738,18 @@ func (fg *FuncGen) trCall(x *SCall, env *SpecEnv, hint types.Type) Val {
 				j, _ = strconv.Atoi(lit.Val)
 			}
 		}
-		cell := fmt.Sprintf("$callarg:%s:%d", name, j)
-		t := fg.g.calleeArgType(name, j)
-		if t == nil {
-			fg.specFail(env, "callarg: %s has no reference argument %d", name, j)
+		var t types.Type
+		if x.Fun == "callarg" {
+			t = fg.g.calleeArgType(name, j)
+		} else {
+			t = fg.g.calleeResType(name, j)
 		}
-		return Val{T: fmt.Sprintf("(select %s %s)", fg.ghostGet(env.st, cell, "(Array Int Int)", "((as const (Array Int Int)) 0)"), fg.asMathInt(k)), Typ: t}
+		if t == nil {
+			fg.specFail(env, "%s: %s has no argument/result %d", x.Fun, name, j)
+		}
+		cell := fmt.Sprintf("$%s:%s:%d", x.Fun, name, j)
+		srt := fmt.Sprintf("(Array Int %s)", enc.sortOf(t))
+		return Val{T: fmt.Sprintf("(select %s %s)", fg.ghostGet(env.st, cell, srt, ""), fg.asMathInt(k)), Typ: t}
 	case "callseq":
 		name := fg.calleeKey(x.Args[0], env)
 		k := arg(1, fg.mathInt())
@@ -773,6 +805,27 @@ func (fg *FuncGen) trCall(x *SCall, env *SpecEnv, hint types.Type) Val {
 			fg.specFail(env, "addr: unknown global %s", x.Args[0])
 		}
 		return Val{T: fg.globalAddr(gl), Typ: gl.Type()}
+	case "tomath":
+		// machine integer -> mathematical integer (signed value)
+		v := arg(0, types.Typ[types.Int])
+		if isGhostInt(v.Typ) {
+			return v
+		}
+		if enc.bv {
+			bits, signed, _ := intInfo(v.Typ)
+			if signed {
+				return Val{T: fmt.Sprintf("(ite (bvslt %s %s) (- (bv2nat %s) %s) (bv2nat %s))", v.T, enc.intLit(bigZero, bits), v.T, new(big.Int).Lsh(bigOne, uint(bits)).String(), v.T), Typ: ghostInt}
+			}
+			return Val{T: fmt.Sprintf("(bv2nat %s)", v.T), Typ: ghostInt}
+		}
+		return Val{T: v.T, Typ: ghostInt}
+	case "toint":
+		// mathematical integer -> Go int (only meaningful within range)
+		v := arg(0, ghostInt)
+		if enc.bv {
+			return Val{T: fmt.Sprintf("((_ int2bv 64) %s)", v.T), Typ: types.Typ[types.Int]}
+		}
+		return Val{T: v.T, Typ: types.Typ[types.Int]}
 	case "allocated":
 		v := arg(0, nil)
 		return Val{T: fmt.Sprintf("(< %s %s)", v.T, fg.allocTerm(env.st)), Typ: B}
@@ -820,11 +873,17 @@ func (fg *FuncGen) trCall(x *SCall, env *SpecEnv, hint types.Type) Val {
 	return Val{}
 }
 
-func (fg *FuncGen) mathInt() types.Type { return types.Typ[types.Int] }
+// ghostInt: the type of specification-only mathematical integers (call counts, sequence
+// numbers, type tags); always the SMT sort Int, whatever the integer mode of the function.
+var ghostInt = types.NewNamed(types.NewTypeName(token.NoPos, nil, "mathint", nil), types.Typ[types.Int], nil)
+
+func isGhostInt(t types.Type) bool { return t == ghostInt }
+
+func (fg *FuncGen) mathInt() types.Type { return ghostInt }
 
 // asMathInt: ghost sequences are indexed by mathematical Ints.
 func (fg *FuncGen) asMathInt(v Val) string {
-	if fg.enc.bv {
+	if fg.enc.bv && !isGhostInt(v.Typ) {
 		return fmt.Sprintf("(bv2nat %s)", v.T)
 	}
 	return v.T
@@ -847,7 +906,7 @@ func (fg *FuncGen) trSpecCall(sf *SpecFun, x *SCall, env *SpecEnv) Val {
 		fg.specFail(env, "spec %s expects %d arguments", sf.Name, len(sf.Params))
 	}
 	sp := fg.g.pkgByPath(sf.Pkg)
-	ne := &SpecEnv{st: env.st, old: env.old, vars: map[string]Val{}, pkg: sp, preAlloc: env.preAlloc, results: nil, what: "spec " + sf.Name, loop: env.loop}
+	ne := &SpecEnv{st: env.st, old: env.old, vars: map[string]Val{}, pkg: sp, preAlloc: env.preAlloc, results: nil, what: "spec " + sf.Name, loop: env.loop, quant: env.quant}
 	for i, p := range sf.Params {
 		pt := fg.g.resolveType(p[1], sp)
 		if pt == nil {
@@ -905,6 +964,16 @@ func (fg *FuncGen) unchangedTerm(a SExpr, env *SpecEnv) string {
 }
 
 func (fg *FuncGen) calleeKey(e SExpr, env *SpecEnv) string {
+	return calleeKeyOf(e)
+}
+
+// calleeKeyOf: the trace key of a callee named in ncalls/callarg/...: Name, pkg.Name or (*T).Name
+func calleeKeyOf(e SExpr) string {
+	if sel, ok := e.(*SSel); ok {
+		if t, ok := sel.X.(*SType); ok {
+			return "(" + strings.ReplaceAll(t.Text, " ", "") + ")." + sel.Name
+		}
+	}
 	return strings.ReplaceAll(e.String(), " ", "")
 }
 
